@@ -618,7 +618,9 @@ func (g G) Decl(kind string, depth int) *Node {
 			vt = Ident("BOOL")
 			props = []*Node{tp("a", Bool(true), true)}
 		case 7:
-			props = []*Node{N("TableProperty", "Key", StrSrc("k %41", "k A"), "Value", StrSrc("v%20w", "v w"), "HasComma", true), tp("long", LongStr("l \"q\" v", ""), true), tp("", Str(""), false)}
+			props = []*Node{N("TableProperty", "Key", StrSrc("k %41", "k A"), "Value", StrSrc("v%20w", "v w"), "HasComma", true), tp("long", LongStr("l \"q\" v", ""), true),
+				// an escaped percent sign in front of two hex digits: printing the decoded value would decode once more
+				N("TableProperty", "Key", StrSrc("k%2541", "k%41"), "Value", StrSrc("v%2541", "v%41"), "HasComma", true), tp("", Str(""), false)}
 		case 8:
 			vt = Ident(pick(c, "table.type", "FLOAT", "RTIME", "ACL", "IP"))
 			switch vt.Str("Value") {
